@@ -217,6 +217,15 @@ def _tuple_const(fn, name):
     for n in ast.walk(fn):
         if isinstance(n, ast.Assign) and path_of(n.targets[0]) == name and isinstance(n.value, (ast.Tuple, ast.List)):
             return [A.const(x) for x in n.value.elts], n
+    # the table is computed (tuple(str(i) for i in range(..)), a comprehension): its value by constant propagation
+    for n in ast.walk(fn):
+        if isinstance(n, ast.Assign) and path_of(n.targets[0]) == name:
+            try:
+                v = A.ev(n.value, {})
+                if isinstance(v, (tuple, frozenset)) and all(isinstance(x, str) for x in v):
+                    return list(v), n
+            except (A.NotClosed, TypeError, ValueError):
+                pass
     cands = []
     for n in ast.walk(fn):
         if isinstance(n, ast.Compare) and len(n.ops) == 1 and isinstance(n.ops[0], (ast.In, ast.NotIn)) \
@@ -1009,6 +1018,42 @@ def r19_open_envelope_ids(ctx):
         yield Ob('x12file:X12Base.%s answers %s' % (nm, attr), got == want, ctx.floc(fn), '' if got == want else 'answers %r with seg_count 17, cur_line 42' % (got,))
 
 
+def r20_element_error_joins_the_current_segment(ctx):
+    """an element error is itemised (and shown) under the segment being validated: _add_cur_ele decided by constant
+    propagation - when the pending element node is linked into the tree it goes into the elements of the CURRENT
+    segment node, whatever node it was created under (the "too many elements" error is raised before any element of
+    the segment was registered: the pending node still belongs to the previous segment), once, and the flag says so;
+    an element node that is already linked is not linked again."""
+    from ..absint import explore, helper_oracles
+    fn = ctx.func('error_handler', 'err_handler._add_cur_ele')
+    g = ctx.cfg(fn)
+    msgs = []
+    for added in (False, True):
+        prev_seg, cur_seg = _ENode('PREVSEG'), _ENode('SEG')
+        ele = _ENode('ELE', parent=prev_seg)
+        env = {'self.cur_seg_node': cur_seg, 'self.cur_ele_node': ele, 'self.ele_node_added': added, 'self.seg_node_added': True,
+               'self.cur_st_node': _ENode('ST'), 'self': _ENode('ROOT')}
+        fin = []
+
+        def on_node(nd, e, g=g):
+            if nd is g.exit:
+                fin.append(dict(e))
+
+        def unk(nd, e):
+            raise AnalysisError('err_handler._add_cur_ele: a test cannot be decided: %s' % norm(nd.ast))
+        explore(g, env, funcs=dict(helper_oracles(ctx, 'error_handler'), **{'self._add_cur_seg': lambda: None}), on_node=on_node, on_unknown=unk)
+        if not fin:
+            raise AnalysisError('err_handler._add_cur_ele: no outcome')
+        for e in fin:
+            want = [] if added else [ele]
+            if [x for x in cur_seg.elements] != want or prev_seg.elements:
+                msgs.append('with the pending element node %s, the current segment node gets %s and the node it was created under gets %s; expected %s and nothing'
+                            % ('already linked' if added else 'not linked yet', cur_seg.elements, prev_seg.elements, want))
+            elif e.get('self.ele_node_added') is not True:
+                msgs.append('ele_node_added is %r afterwards: the node would be linked again by the next error' % (e.get('self.ele_node_added'),))
+    yield Ob('error_handler:err_handler._add_cur_ele links the pending element node into the current segment node, once', not msgs, ctx.floc(fn), msgs[0] if msgs else '')
+
+
 RULES = [
     Rule('C05.R17', 'shared with C15.R2: a validator answers False only after a report', r17_false_means_reported, floor=5),
     Rule('C05.R1', 'verdict True only through valid and error-count-zero edges; other exits False', r1_verdict, floor=3),
@@ -1028,5 +1073,6 @@ RULES = [
     Rule('C05.R12', 'ISA05-08 / GS02-03 of the acknowledgement are the received receiver and sender, swapped', r12_addressed_to_sender, floor=9),
     Rule('C05.R18', 'after add_/close_ of an interchange, group or set the current segment node is that envelope node (constant propagation)', r18_current_node_follows_the_envelope, floor=6),
     Rule('C05.R19', 'get_isa_id / get_gs_id / get_st_id / get_ls_id answer the open loop of their kind; position getters answer their counter (constant propagation)', r19_open_envelope_ids, floor=6),
+    Rule('C05.R20', '_add_cur_ele links the pending element node into the current segment node, once (constant propagation)', r20_element_error_joins_the_current_segment, floor=1),
     Rule('C05.R11', 'errors on SE/GE themselves are reflected in the set/group code (validated before close, or code evaluated when read)', r11_trailer_errors_count, floor=2),
 ]
